@@ -38,7 +38,8 @@ AllLeaves == {"bool","int","int8","int16","int32","int64","uint","uint8","uint16
 AllWrappers == {"ptr","slice","array2","mapstr","mapint","maptm","struct1","structopt"}
 
 \* a shape is [k |-> kind, e |-> element shape or Leaf("")] ; structs carry their option in the kind:
-\*   struct1   struct { A T }                 structopt  struct { A T `json:"a,omitempty"`; B T `json:",string"` }
+\*   struct1   struct { A T }                 structopt  struct { A T `json:"a,omitempty"`; B T `json:",string"`; C `json:"-"`; D `json:"-,"`;
+\*                                                       E `json:"<e&>,omitempty,string"`; F, G: names of exactly 16 and 15 bytes }
 Leaf(k) == [k |-> k, d |-> 0]
 Wrap(w, sh) == [k |-> w, d |-> sh.d + 1, e |-> sh]
 
